@@ -77,7 +77,7 @@ func Matches(pass *analysis.Pass, qs ...pattern.Pattern) iter.Seq2[ast.Node, *pa
 // rootCallObjects resolves the root call symbols of a pattern to the objects whose call sites are
 // the only candidates for a match. It reports false if there are no root call symbols or if the
 // call index cannot enumerate all candidates: predeclared functions belong to no package and are
-// unknown to the index.
+// unknown to the index, and a conversion T(x) is a CallExpr but not a call of T.
 func rootCallObjects(index *typeindex.Index, syms []pattern.IndexSymbol) ([]types.Object, bool) {
 	if len(syms) == 0 {
 		return nil, false
@@ -92,6 +92,9 @@ func rootCallObjects(index *typeindex.Index, syms []pattern.IndexSymbol) ([]type
 			obj = index.Object(isym.Path, isym.Ident)
 		} else {
 			obj = index.Selection(isym.Path, isym.Type, isym.Ident)
+		}
+		if _, ok := obj.(*types.TypeName); ok {
+			return nil, false
 		}
 		objs = append(objs, obj)
 	}
